@@ -75,6 +75,12 @@ func main() {
 		repo := fs.String("repo", "/repo", "repository root")
 		fs.Parse(os.Args[2:])
 		os.Exit(runAll(*repo))
+	case "anchors":
+		// records, for every anchor function/type the rules resolve by name on this tree, its signature/shape
+		fs := flag.NewFlagSet("anchors", flag.ExitOnError)
+		repo := fs.String("repo", "/repo", "repository root")
+		fs.Parse(os.Args[2:])
+		os.Exit(writeAnchors(*repo))
 	case "manifest":
 		writeManifest()
 	case "list":
@@ -89,6 +95,35 @@ func main() {
 	default:
 		usage()
 	}
+}
+
+func writeAnchors(repo string) int {
+	c, err := Load(repo, "quick")
+	if err != nil {
+		fmt.Printf("bwcheck: %v\n", err)
+		return 2
+	}
+	c.anchorSeen = map[string]string{}
+	var ids []string
+	for id := range properties {
+		ids = append(ids, id)
+	}
+	sort.Strings(ids)
+	for _, id := range ids {
+		c.Obls, c.RuleStats, c.funcsAnalysed, c.curRule = nil, map[string]*RuleStat{}, map[string]bool{}, ""
+		for _, r := range properties[id].Rules {
+			r(c)
+		}
+	}
+	for _, ea := range extraAnchors {
+		c.lookupFunc(ea[0], ea[1])
+	}
+	for _, ea := range extraTypeAnchors {
+		c.namedType(ea[0], ea[1])
+	}
+	b, _ := json.MarshalIndent(c.anchorSeen, "", " ")
+	os.Stdout.Write(append(b, '\n'))
+	return 0
 }
 
 func runAll(repo string) (code int) {
